@@ -260,7 +260,6 @@ class _Dialect(type):
     def __new__(cls, clsname, bases, attrs):
         klass = super().__new__(cls, clsname, bases, attrs)
         enum = Dialects.__members__.get(clsname.upper())
-        cls._classes[enum.value if enum is not None else clsname.lower()] = klass
 
         klass.TIME_TRIE = new_trie(klass.TIME_MAPPING)
         klass.FORMAT_TRIE = (
@@ -356,6 +355,10 @@ class _Dialect(type):
             *klass.DATE_PART_MAPPING.keys(),
             *klass.DATE_PART_MAPPING.values(),
         }
+
+        # Register the class last: another thread that finds it in the registry must never see
+        # it before its tokenizer / parser / generator classes and derived tables are in place
+        cls._classes[enum.value if enum is not None else clsname.lower()] = klass
 
         return klass
 
